@@ -23,7 +23,8 @@ INFO = {
     'assumptions': ['ideal hash model for the parameters digest', 'virtual-time event loop'],
 }
 MANDATORY = {'cons_v2': ['consumer-decision-table'], 'prod_v2': ['producer-decision-table'],
-             'cons_v1': ['consumer-decision-table'], 'prod_v1': ['producer-decision-table']}
+             'cons_v1': ['consumer-decision-table'], 'prod_v1': ['producer-decision-table'],
+             'prod_swap': ['producer-decision-table', 'end']}
 
 
 def _consumer(eng, case, front):
@@ -399,7 +400,70 @@ def h_prod_v1(eng, case):
     _producer(eng, case, 'v1')
 
 
-HARNESSES = {'cons2': h_cons2, 'cons_v2': h_cons_v2, 'cons_v1': h_cons_v1, 'prod_v2': h_prod_v2, 'prod_v1': h_prod_v1}
+def h_prod_swap(eng, case):
+    """the handler table changes while an Interest's validator is still running (the longest prefix is detached, or
+    detached and re-attached with another handler and validator; a shorter prefix stays attached with its own validator or
+    none): whichever handler ends up with the Interest, ITS validator must have been consulted for it and accepted"""
+    import ndn.types as types
+    import ndn.encoding as enc
+    env.symbolic_env(eng)
+    app, face = appenv.make_app('v2')
+    VR = [types.ValidResult.PASS, types.ValidResult.FAIL, types.ValidResult.ALLOW_BYPASS, types.ValidResult.SILENCE]
+    consulted = {}
+    verdict = {}
+    calls = []
+
+    def mk_validator(tag, slow):
+        async def validator(name, sig, ctx):
+            consulted[tag] = consulted.get(tag, 0) + 1
+            v = VR[eng.choice(len(VR), 'verdict-' + tag)]
+            if slow:
+                await asyncio.sleep(0.010)
+            verdict[tag] = v
+            return v
+        return validator
+
+    def mk_handler(tag):
+        def handler(name, app_param, reply, context):
+            calls.append(tag)
+        return handler
+    outer_has_validator = eng.choice(2, 'outer-validator?')
+    app.attach_handler('/p', mk_handler('outer'), mk_validator('outer', False) if outer_has_validator else None)
+    app.attach_handler('/p/x', mk_handler('inner'), mk_validator('inner', True))
+    variant = case['variant']
+    signer = env.make_signer(eng, 'hmac', for_interest=True) if variant == 'signed' else None
+    wire = bytes(enc.make_interest('/p/x/y', enc.InterestParam(nonce=5, lifetime=4000), b'a', signer))
+    op = ['none', 'detach', 'replace'][eng.choice(3, 'table-op')]
+
+    async def main(loop):
+        await app._receive(5, wire)
+        await asyncio.sleep(0.002)                  # the inner validator is suspended now
+        if op in ('detach', 'replace'):
+            app.detach_handler('/p/x')
+        if op == 'replace':
+            app.attach_handler('/p/x', mk_handler('new'), mk_validator('new', False))
+        await asyncio.sleep(0.050)
+    loop, r, err = appenv.run(eng, main)
+    if err == 'deadlock':
+        eng.fail('producer-decision-table', 'deadlock')
+        return
+    if loop.errors:
+        exc = loop.errors[0].get('exception')
+        eng.fail('no-unhandled-error-in-loop', exc_sig(exc) if exc is not None else str(loop.errors[0].get('message')))
+        return
+    eng.check(len(calls) <= 1, 'producer-decision-table', {'calls': calls}, sig='delivered-more-than-once')
+    for tag in calls:
+        ok = consulted.get(tag, 0) >= 1 and verdict.get(tag) in (types.ValidResult.PASS, types.ValidResult.ALLOW_BYPASS)
+        eng.check(ok, 'producer-decision-table',
+                  {'handler': tag, 'its_validator_consulted': consulted.get(tag, 0), 'its_verdict': repr(verdict.get(tag)),
+                   'table_op': op}, sig='handler-reached-without-its-validator-accepting:' + tag)
+    if not calls:
+        eng.check(True, 'producer-decision-table')
+    eng.observe('calls', list(calls))
+    eng.reach('end')
+
+
+HARNESSES = {'prod_swap': h_prod_swap, 'cons2': h_cons2, 'cons_v2': h_cons_v2, 'cons_v1': h_cons_v1, 'prod_v2': h_prod_v2, 'prod_v1': h_prod_v1}
 
 
 def cases(tier, seed):
@@ -408,6 +472,8 @@ def cases(tier, seed):
     for front in ('v2', 'v1'):
         for n in (2, 3):
             cs.append(('cons2', {'front': front, 'consumers': n}, {'weight': 10}))
+    for variant in ('params', 'signed'):
+        cs.append(('prod_swap', {'variant': variant}, {'weight': 5}))
     for front in ('prod_v2', 'prod_v1'):
         for variant in ('plain', 'params', 'signed'):
             for val in (True, False):
